@@ -365,6 +365,25 @@ def _inline_function_aliases(tree: ast.Module) -> int:
                     depth += 1
                 if depth >= 1 and isinstance(root, ast.Name) and (root.id in module_names or root.id in local_imports) and root.id not in stores and root.id not in params:
                     aliases[s.targets[0].id] = v
+
+                def _rooted(e):
+                    r_, d_ = e, 0
+                    while isinstance(r_, ast.Attribute):
+                        r_, d_ = r_.value, d_ + 1
+                    return d_ >= 1 and isinstance(r_, ast.Name) and (r_.id in module_names or r_.id in local_imports) and r_.id not in stores and r_.id not in params
+
+                def _steady(t):
+                    # a plain reference nothing in this function stores into (`self._loud`, a parameter): the same answer at
+                    # the call as at the binding, as far as this function is concerned
+                    r_ = t
+                    while isinstance(r_, ast.Attribute):
+                        r_ = r_.value
+                    if not isinstance(r_, ast.Name) or stores.get(r_.id):
+                        return False
+                    return not any(isinstance(x, ast.Attribute) and isinstance(x.ctx, (ast.Store, ast.Del)) and ast.unparse(x) == ast.unparse(t) for x in own)
+
+                if isinstance(v, ast.IfExp) and _rooted(v.body) and _rooted(v.orelse) and _steady(v.test):
+                    aliases[s.targets[0].id] = v  # `report = logger.error if self._loud else logger.debug`
         if not aliases:
             continue
         import copy as _copy
@@ -1030,6 +1049,7 @@ def expand_table_dispatch(tree: ast.Module) -> int:
 
 def normalize(tree: ast.Module) -> int:
     n18 = expand_table_dispatch(tree)
+    n18 += _inline_function_aliases(tree)  # (before N7 turns `f = a if c else b` into two bindings)
     nz = Normalizer()
     nz.visit(tree)
     nz.count += n18
